@@ -279,10 +279,9 @@ func checkCopyMove(srcPath, dstPath string, noOverwrite bool) (srcInfo os.FileIn
 		return nil, false, errFromOS(err)
 	}
 
-	sep := string(filepath.Separator)
 	if srcPath == dstPath {
 		return nil, false, NewHTTPError(http.StatusForbidden, fmt.Errorf("webdav: source and destination are the same resource"))
-	} else if strings.HasPrefix(dstPath, strings.TrimSuffix(srcPath, sep)+sep) || strings.HasPrefix(srcPath, strings.TrimSuffix(dstPath, sep)+sep) {
+	} else if isWithin(srcPath, dstPath) || isWithin(dstPath, srcPath) {
 		return nil, false, NewHTTPError(http.StatusForbidden, fmt.Errorf("webdav: source and destination contain one another"))
 	}
 
@@ -306,6 +305,13 @@ func checkCopyMove(srcPath, dstPath string, noOverwrite bool) (srcInfo os.FileIn
 	}
 
 	return srcInfo, created, nil
+}
+
+// isWithin reports whether the local path p is dir itself or lies below it.
+// Both are paths as returned by localPath, which may be relative (".").
+func isWithin(dir, p string) bool {
+	rel, err := filepath.Rel(dir, p)
+	return err == nil && rel != ".." && !strings.HasPrefix(rel, ".."+string(filepath.Separator))
 }
 
 func copyRegularFile(src, dst string, perm os.FileMode) error {
